@@ -30,6 +30,7 @@ type feedOpts struct {
 	boundaryQ            int  // quick number of boundary base documents (default 4)
 	boundaries           bool // long documents corrupted at positions round 64, 128, ..., 65536 (chunked scanners)
 	alignment            bool // runs of every token class at every length 0..40 x special byte x tail length (word-at-a-time scanners)
+	templateSweep        bool // the complete position x byte sweep on a fixed family of context x value templates
 	tokenSweepQ          int  // number of generated base documents for the token-level sweep (0 = skip); 14 fixed templates are always included
 	amplify              bool // one small element (every single-gap whitespace variant of 6 templates, and drawn ones) repeated > 10000 times in one container
 	strRuns              bool // strings made of N directly adjacent escapes of one kind (N in 0..140 and round powers of two) + a closer, as value and key
@@ -276,6 +277,40 @@ func (e *env) feed(o feedOpts, f inputFn) {
 						report("strruns", b, err)
 						break strruns
 					}
+				}
+			}
+		}
+	}
+
+	// 2a*. the complete position x byte sweep (every truncation, 256 substitutions and 256
+	// insertions at every position) on a FIXED family of templates: every value kind in every
+	// context (top level, first / later array member, first / later object member, one and two
+	// levels down in either container kind). The generated sweep bases below vary from run to
+	// run; these make sure every grammar position of every context is swept in every run.
+	if o.templateSweep && e.enumStage("template-sweep", "9 contexts x 18 value kinds (every number sub-state): every truncation, substitution (256) and insertion (256) at every position", true) {
+		ctxs := [][2]string{{"", ""}, {"[", "]"}, {"[1,", "]"}, {`{"k":`, "}"}, {`{"a":1,"k":`, "}"}, {"[[", "]]"}, {`[{"k":`, "}]"}, {`{"k":[`, "]}"}, {`{"k":{"j":`, "}}"}}
+		vals := []string{"1", "12", "0", "-0", "1.5", "10.25", "1e5", "12E+50", "-1.5e3", `"s"`, `"\\n"`, "true", "false", "null", "[]", "{}", "[1]", `{"x":1}`}
+		idx := 0
+	tsweep:
+		for _, cx := range ctxs {
+			for _, v := range vals {
+				idx++
+				if !cfg.Mine(idx) {
+					continue
+				}
+				doc := []byte(cx[0] + v + cx[1])
+				var ferr error
+				var bad []byte
+				gen.Sweep(doc, func(b []byte) bool {
+					if err := call("template-sweep", b); err != nil {
+						ferr, bad = err, keepSpare(b)
+						return false
+					}
+					return true
+				})
+				if ferr != nil {
+					report("template-sweep", bad, ferr)
+					break tsweep
 				}
 			}
 		}
